@@ -670,8 +670,10 @@ func (s *Sim) c22Batch() (specs []spectypes.Spec, kind string) {
 				out = append(out, idx)
 			}
 		}
-		for len(out) < n {
-			c := c22Indexes[r.Draw("ops", len(c22Indexes))]
+		// then re-use stored ones, starting at a drawn offset (bounded: an exhausted tape draws 0)
+		off := r.Draw("ops", len(c22Indexes))
+		for i := 0; i < len(c22Indexes) && len(out) < n; i++ {
+			c := c22Indexes[(off+i)%len(c22Indexes)]
 			dup := false
 			for _, o := range out {
 				dup = dup || o == c
